@@ -11,6 +11,38 @@ pub mod partition_index;
 pub mod segment;
 pub mod stream_index;
 
+/// Trailer appended to an index file once it has been written completely: the total file length
+/// (little endian) followed by this marker. A sealed segment's index files are written in the
+/// background after the rollover, so after a crash a file can be missing, empty or a prefix;
+/// such a file has no valid trailer and the index is rebuilt from the segment when opening.
+const INDEX_COMPLETE_MARKER: &[u8; 8] = b"IDXDONE\n";
+
+/// Marks a fully written index file as complete and makes it durable.
+pub(crate) fn finish_index_file(file: &mut std::fs::File) -> std::io::Result<()> {
+    use std::io::{Seek, SeekFrom, Write};
+    let len = file.seek(SeekFrom::End(0))?;
+    file.write_all(&(len + 16).to_le_bytes())?;
+    file.write_all(INDEX_COMPLETE_MARKER)?;
+    file.flush()?;
+    file.sync_data()
+}
+
+/// Whether an index file carries a valid completion trailer.
+pub(crate) fn index_file_is_complete(path: &Path) -> bool {
+    use std::os::unix::fs::FileExt;
+    let Ok(file) = std::fs::File::open(path) else {
+        return false;
+    };
+    let Ok(len) = file.metadata().map(|meta| meta.len()) else {
+        return false;
+    };
+    let mut trailer = [0u8; 16];
+    len >= 16
+        && file.read_exact_at(&mut trailer, len - 16).is_ok()
+        && trailer[..8] == len.to_le_bytes()
+        && &trailer[8..] == INDEX_COMPLETE_MARKER
+}
+
 pub type BucketId = u16;
 pub type SegmentId = u32;
 pub type PartitionKey = Uuid;
